@@ -61,8 +61,10 @@ CHECKS = {
        "uninterpreted validity predicate), JSON documents (4/6: Len, Check, NextLexeme loop, both option values), NewNumber and "
        "GuessSchemaType (5/7); (2) prefix-probes: every prefix (= every truncation) of 14 jschema / 6 enum / 10 JSON corpus texts "
        "followed by K=1/2 arbitrary bytes; (3) projects of 2/3 mutually or self referencing user types over 10/7 body kinds "
-       "(shortcut, choice, key shortcut, array, allOf, type, or, optional) with symbolic targets under 5 root shapes.",
-  note="OpenAPI conversion is outside the claim (encoding/json reflection is not executed); regex Example() (reggen) is host code and "
+       "(shortcut, choice, key shortcut, array, allOf, type, or, optional) with symbolic targets under 5 root shapes; (4) OpenAPI "
+       "conversion at struct level: for every accepted text of an 11-schema corpus with one digit varied and K arbitrary trailing "
+       "bytes, building the Schema Object tree (jsoac.New, SetDescription) does not panic.",
+  note="The reflective json.Marshal step of the OpenAPI conversion is outside the claim (encoding/json reflection is not executed); regex Example() (reggen) is host code and "
        "not explored symbolically; memory exhaustion is outside; inputs longer than the bounds that are not prefix-probe shaped are outside.",
   ref="DESIGN.md §4 C02"),
  "C16": dict(
